@@ -1,6 +1,6 @@
 (* C07 property theorems.  Nothing but statements, `exact`, and Print Assumptions.
-   All statements quantify over every mount table [ms], every (history dependent) call
-   oracle [call] and every input; [fixed] is the version record describing the current
+   All statements quantify over every params-decoder outcome [pok], every mount table [ms],
+   every (history dependent) call oracle [call] and every input; [fixed] is the version record describing the current
    tree, [pre_fix] the tree before the fix commits listed in known_findings.json. *)
 From Coq Require Import ZArith List Bool String.
 From Common Require Import Str.
@@ -9,76 +9,81 @@ Import ListNotations.
 Open Scope Z_scope.
 
 (* T1 total: no input makes a Python exception leave handle_json ... *)
-Theorem C07_total : forall ms call i e, fst (handle_json fixed ms call i) <> OEscaped e.
+Theorem C07_total : forall pok ms call i e, fst (handle_json fixed pok ms call i) <> OEscaped e.
 Proof. exact total_lemma. Qed.
 Print Assumptions C07_total.
 
 (* ... nor makes the HTTP / WebSocket handler fall into its catch-all (500 / close). *)
-Theorem C07_endpoint_total : forall ms call utf8_ok i,
-  fst (endpoint fixed ms call false utf8_ok i) <> EpTransportError.
+Theorem C07_endpoint_total : forall pok ms call utf8_ok i,
+  fst (endpoint fixed pok ms call false utf8_ok i) <> EpTransportError.
 Proof. exact endpoint_total_lemma. Qed.
 Print Assumptions C07_endpoint_total.
 
 Theorem C07_total_refuted_before_fix_id_array :
-  exists ms call i, fst (handle_json pre_fix ms call i) = OEscaped EValidation.
+  exists pok ms call i, fst (handle_json pre_fix pok ms call i) = OEscaped EValidation.
 Proof. exact total_refuted_id_array. Qed.
 Print Assumptions C07_total_refuted_before_fix_id_array.
 
 Theorem C07_total_refuted_before_fix_unknown_member_in_batch :
-  exists ms call i, fst (handle_json pre_fix ms call i) = OEscaped EValidation.
+  exists pok ms call i, fst (handle_json pre_fix pok ms call i) = OEscaped EValidation.
 Proof. exact total_refuted_unknown_member. Qed.
 Print Assumptions C07_total_refuted_before_fix_unknown_member_in_batch.
 
 Theorem C07_total_refuted_before_fix_unserializable :
-  exists ms call i, fst (handle_json pre_fix ms call i) = OEscaped ESerialization.
+  exists pok ms call i, fst (handle_json pre_fix pok ms call i) = OEscaped ESerialization.
 Proof. exact total_refuted_unserializable. Qed.
 Print Assumptions C07_total_refuted_before_fix_unserializable.
 
 Theorem C07_endpoint_total_refuted_before_fix :
-  exists ms call i, fst (endpoint pre_fix ms call false false i) = EpTransportError.
+  exists pok ms call i, fst (endpoint pre_fix pok ms call false false i) = EpTransportError.
 Proof. exact endpoint_total_refuted. Qed.
 Print Assumptions C07_endpoint_total_refuted_before_fix.
 
 (* T2 classification *)
-Theorem C07_parse_error : forall ms call,
-  handle_json fixed ms call ParseFail = (OBytes (error_doc None E_PARSE), []).
+Theorem C07_parse_error : forall pok ms call,
+  handle_json fixed pok ms call ParseFail = (OBytes (error_doc None E_PARSE), []).
 Proof. exact parse_error_lemma. Qed.
 Print Assumptions C07_parse_error.
 
-Theorem C07_validate_spec : forall j rq, validate j = VOk rq <-> request_shape j rq.
+Theorem C07_validate_spec : forall pok j rq, validate pok j = VOk rq <-> request_shape pok j rq.
 Proof. exact validate_spec. Qed.
 Print Assumptions C07_validate_spec.
 
-Theorem C07_invalid_request : forall ms call j,
-  (forall l, j <> JArr l) -> (forall rq, validate j <> VOk rq) ->
-  handle_json fixed ms call (Parsed j) = (OBytes (error_doc None E_INVALID), []).
+Theorem C07_invalid_request : forall pok ms call j,
+  (forall l, j <> JArr l) -> (forall rq, validate pok j <> VOk rq) ->
+  handle_json fixed pok ms call (Parsed j) = (OBytes (error_doc None E_INVALID), []).
 Proof. exact invalid_request_lemma. Qed.
 Print Assumptions C07_invalid_request.
 
-Theorem C07_reject_not_object : forall j, (forall o, j <> JObj o) -> forall rq, validate j <> VOk rq.
+Theorem C07_reject_not_object : forall pok j, (forall o, j <> JObj o) -> forall rq, validate pok j <> VOk rq.
 Proof. exact validate_not_object. Qed.
 Print Assumptions C07_reject_not_object.
 
-Theorem C07_reject_unknown_member : forall o k x,
-  In (k, x) o -> known_member k = false -> forall rq, validate (JObj o) <> VOk rq.
+Theorem C07_reject_unknown_member : forall pok o k x,
+  In (k, x) o -> known_member k = false -> forall rq, validate pok (JObj o) <> VOk rq.
 Proof. exact validate_unknown_member. Qed.
 Print Assumptions C07_reject_unknown_member.
 
-Theorem C07_reject_id_array : forall o l,
-  lookup k_id o = Some (JArr l) -> forall rq, validate (JObj o) <> VOk rq.
+Theorem C07_reject_id_array : forall pok o l,
+  lookup k_id o = Some (JArr l) -> forall rq, validate pok (JObj o) <> VOk rq.
 Proof. exact validate_id_array. Qed.
 Print Assumptions C07_reject_id_array.
 
-Theorem C07_reject_id_object : forall o l,
-  lookup k_id o = Some (JObj l) -> forall rq, validate (JObj o) <> VOk rq.
+Theorem C07_reject_id_object : forall pok o l,
+  lookup k_id o = Some (JObj l) -> forall rq, validate pok (JObj o) <> VOk rq.
 Proof. exact validate_id_object. Qed.
 Print Assumptions C07_reject_id_object.
 
+(* params that do not decode (a tagged object that is not a valid model): -32600 *)
+Theorem C07_undecodable_params_rejected : forall pok j rq, validate pok j = VOk rq -> pok (r_params rq) = true.
+Proof. exact validate_bad_params. Qed.
+Print Assumptions C07_undecodable_params_rejected.
+
 (* a request with an id: -32601 / -32602 / application error / result, id echoed,
    and exactly the resolved callable invoked *)
-Theorem C07_request : forall ms call j rq i,
-  validate j = VOk rq -> r_id rq = Some i ->
-  handle_json fixed ms call (Parsed j) =
+Theorem C07_request : forall pok ms call j rq i,
+  validate pok j = VOk rq -> r_id rq = Some i ->
+  handle_json fixed pok ms call (Parsed j) =
   match get_method ms (r_method rq) with
   | TNotFound => (OBytes (error_doc (Some i) E_NOT_FOUND), [])
   | TPlain => (OBytes (error_doc (Some i) E_PARAMS), [])
@@ -87,13 +92,13 @@ Theorem C07_request : forall ms call j rq i,
 Proof. exact request_lemma. Qed.
 Print Assumptions C07_request.
 
-Theorem C07_notification : forall ms call j rq,
-  validate j = VOk rq -> r_id rq = None -> fst (handle_json fixed ms call (Parsed j)) = ONothing.
+Theorem C07_notification : forall pok ms call j rq,
+  validate pok j = VOk rq -> r_id rq = None -> fst (handle_json fixed pok ms call (Parsed j)) = ONothing.
 Proof. exact notification_lemma. Qed.
 Print Assumptions C07_notification.
 
-Theorem C07_id_echo : forall o rq idj,
-  validate (JObj o) = VOk rq -> lookup k_id o = Some idj -> echoable idj = true ->
+Theorem C07_id_echo : forall pok o rq idj,
+  validate pok (JObj o) = VOk rq -> lookup k_id o = Some idj -> echoable idj = true ->
   wire_id (r_id rq) = idj /\ r_id rq <> None.
 Proof. exact id_echo. Qed.
 Print Assumptions C07_id_echo.
@@ -105,32 +110,32 @@ Print Assumptions C07_response_carries_id.
 
 (* open finding: a non-finite float id (1e400, NaN) is not echoed *)
 Theorem C07_id_echo_refuted_nonfinite :
-  exists o rq idj, validate (JObj o) = VOk rq /\ lookup k_id o = Some idj /\
+  exists o rq idj, validate (fun _ => true) (JObj o) = VOk rq /\ lookup k_id o = Some idj /\
                    (exists t, idj = JFloat t) /\ wire_id (r_id rq) <> idj.
 Proof. exact id_echo_refuted. Qed.
 Print Assumptions C07_id_echo_refuted_nonfinite.
 
 (* T3 batch shape *)
-Theorem C07_empty_batch : forall ms call,
-  handle_json fixed ms call (Parsed (JArr [])) = (OBytes (error_doc None E_INVALID), []).
+Theorem C07_empty_batch : forall pok ms call,
+  handle_json fixed pok ms call (Parsed (JArr [])) = (OBytes (error_doc None E_INVALID), []).
 Proof. exact empty_batch_lemma. Qed.
 Print Assumptions C07_empty_batch.
 
-Theorem C07_batch_shape : forall ms call j t,
+Theorem C07_batch_shape : forall pok ms call j t,
   let js := j :: t in
-  match fst (handle_json fixed ms call (Parsed (JArr js))) with
-  | ONothing => filter answered js = []
+  match fst (handle_json fixed pok ms call (Parsed (JArr js))) with
+  | ONothing => filter (answered pok) js = []
   | OBytes (JArr docs) =>
       exists rs, docs = map wire rs /\ rs <> [] /\
-                 map resp_id_json rs = map expected_id (filter answered js)
+                 map resp_id_json rs = map (expected_id pok) (filter (answered pok) js)
   | _ => False
   end.
 Proof. exact batch_lemma. Qed.
 Print Assumptions C07_batch_shape.
 
 (* T4 only the public API (holds before and after the fixes) *)
-Theorem C07_only_public : forall ms call v i,
-  Forall (fun e => public_entry_b ms e = true) (snd (handle_json v ms call i)).
+Theorem C07_only_public : forall pok ms call v i,
+  Forall (fun e => public_entry_b ms e = true) (snd (handle_json v pok ms call i)).
 Proof. exact only_public_lemma. Qed.
 Print Assumptions C07_only_public.
 
@@ -162,28 +167,28 @@ Theorem C07_deeper_chain_rejected : forall ms m a b,
 Proof. exact deeper_chain_rejected. Qed.
 Print Assumptions C07_deeper_chain_rejected.
 
-Theorem C07_rejected_invokes_nothing : forall ms call v l j rq,
-  validate j = VOk rq -> get_method ms (r_method rq) <> TCall (EMount (r_method rq)) ->
+Theorem C07_rejected_invokes_nothing : forall pok ms call v l j rq,
+  validate (vpok v pok) j = VOk rq -> get_method ms (r_method rq) <> TCall (EMount (r_method rq)) ->
   (forall e, get_method ms (r_method rq) <> TCall e) ->
-  snd (handle_single v ms call l j) = l.
+  snd (handle_single v pok ms call l j) = l.
 Proof. exact not_found_invokes_nothing. Qed.
 Print Assumptions C07_rejected_invokes_nothing.
 
 (* conformance to the JSON-RPC 2.0 response grammar: full statement refuted by a
    non-finite float id (open finding), proved for inputs whose float ids are finite *)
 Theorem C07_conformant_refuted :
-  exists ms call i j l, handle_json fixed ms call i = (OBytes j, l) /\ document_ok_b j = false.
+  exists pok ms call i j l, handle_json fixed pok ms call i = (OBytes j, l) /\ document_ok_b j = false.
 Proof. exact conformant_refuted. Qed.
 Print Assumptions C07_conformant_refuted.
 
-Theorem C07_conformant_partial : forall ms call i j l,
-  input_ids_finite i = true -> handle_json fixed ms call i = (OBytes j, l) -> document_ok_b j = true.
+Theorem C07_conformant_partial : forall pok ms call i j l,
+  input_ids_finite i = true -> handle_json fixed pok ms call i = (OBytes j, l) -> document_ok_b j = true.
 Proof. exact conformant_partial_lemma. Qed.
 Print Assumptions C07_conformant_partial.
 
 (* non-vacuity of the hypotheses used above *)
 Theorem C07_nonvacuous_batch :
-  fst (handle_json fixed demo_mounts demo_call
+  fst (handle_json fixed (fun _ => true) demo_mounts demo_call
          (Parsed (JArr [req "o.pub" (Some (JInt 1)); req "o.pub" None; JInt 5; req "o.uns" (Some (JStr (lit "b")));
                         req "o.pub" (Some (JInt 2))])))
   = OBytes (JArr [wire (mkResp (Some (IdInt 1)) (PResult (JInt 0)));
